@@ -39,15 +39,21 @@ def _load_registry() -> Any:
     return reg
 
 
-def _verify_worker(target: str) -> dict:
-    from .verify import verify_contract
-
-    reg = _REG
+def _con_of(reg: Any, target: str) -> Any:
     con = reg.contracts.get(target)
     if con is None:
         con = [c for c in reg.lemmas if c.target == target][0]
+    return con
+
+
+def _verify_worker(job: Any) -> dict:
+    from .verify import verify_contract
+
+    reg = _REG
+    target, root = job if isinstance(job, tuple) else (job, None)
+    con = _con_of(reg, target)
     try:
-        r = verify_contract(reg, con, timeout_ms=_CFG["timeout_ms"], second=True, budget_s=_CFG["unit_budget_s"])
+        r = verify_contract(reg, con, timeout_ms=_CFG["timeout_ms"], second=True, budget_s=_CFG["unit_budget_s"], root=root)
         out = r.to_json()
     except Exception as e:  # pylint: disable=broad-except
         out = {"target": target, "paths": 0, "dead_paths": 0, "obligations": [], "unsupported": [],
@@ -55,6 +61,47 @@ def _verify_worker(target: str) -> dict:
                "inlined": [], "used_contracts": [], "assumption_ids": [], "secs": 0, "solver_secs": 0, "source": {},
                "canary_ok": None, "pre_sat": None, "notes": []}
     out["contract_sha"] = hashlib.sha256(con.source.encode()).hexdigest()
+    out["root"] = root
+    return out
+
+
+def _prefix_worker(target: str) -> list:
+    from .verify import enumerate_prefixes
+
+    con = _con_of(_REG, target)
+    try:
+        return enumerate_prefixes(_REG, con, int(con.opts.get("split", 0)))
+    except Exception:  # pylint: disable=broad-except
+        return []
+
+
+def _merge_parts(parts: list) -> dict:
+    """Merge the results of one unit that was split by the alternatives of its first decision."""
+    base = parts[0]
+    if len(parts) == 1:
+        return base
+    obl: dict = {}
+    order = {"unsat": 0, "unknown": 1, "sat": 2}
+    for p in parts:
+        for o in p["obligations"]:
+            if o["name"] not in obl:
+                obl[o["name"]] = dict(o)
+            else:
+                m = obl[o["name"]]
+                m["queries"] += o["queries"]
+                m["secs"] = round(m["secs"] + o["secs"], 3)
+                m["backends"] = sorted(set(m["backends"]) | set(o["backends"]))
+                if order[o["status"]] > order[m["status"]]:
+                    m["status"], m["cex"], m["reason"] = o["status"], o["cex"], o["reason"]
+    out = dict(base)
+    out["obligations"] = list(obl.values())
+    for k in ("paths", "dead_paths", "secs", "solver_secs"):
+        out[k] = round(sum(p[k] for p in parts), 3)
+    for k in ("unsupported", "errors", "notes"):
+        out[k] = [x for p in parts for x in p[k]]
+    for k in ("inlined", "used_contracts", "assumption_ids"):
+        out[k] = sorted(set(x for p in parts for x in p[k]))
+    out["canary_ok"] = False if any(p["canary_ok"] is False for p in parts) else (True if any(p["canary_ok"] for p in parts) else None)
     return out
 
 
@@ -86,12 +133,15 @@ def _sample_worker(job: tuple) -> dict:
     for c in con.of("sample"):
         for kw in c.node.keywords:
             gen_types[kw.arg] = eval(compile(_ast.Expression(kw.value), "<sample>", "eval"), con.module.__dict__)  # pylint: disable=eval-used
+    custom = None
+    for c in con.of("sample_with"):
+        custom = eval(compile(_ast.Expression(c.arg(0)), "<sample_with>", "eval"), con.module.__dict__)  # pylint: disable=eval-used
     t_end = time.time() + (30 if n <= 1000 else 300)
     for _ in range(n):
         if time.time() > t_end:
             break
         try:
-            kwargs = {p: gen_value(reg, gen_types[p], rnd) for p in con.params}
+            kwargs = custom(rnd) if custom is not None else {p: gen_value(reg, gen_types[p], rnd) for p in con.params}
         except Exception as e:  # pylint: disable=broad-except
             out["error"] = f"generator: {type(e).__name__}: {e}"
             return out
@@ -112,6 +162,10 @@ def _sample_worker(job: tuple) -> dict:
             out["applicable"] += 1
         if rep["spec_errors"] and len(out["spec_errors"]) < 5:
             out["spec_errors"].extend(rep["spec_errors"][:2])
+        if rep.get("known_class") and rep["violations"]:
+            out.setdefault("known_class_hits", {})
+            out["known_class_hits"][rep["known_class"]] = out["known_class_hits"].get(rep["known_class"], 0) + 1
+            continue
         for v in rep["violations"]:
             key = v.split(":")[0:3]
             k2 = ":".join(key)
@@ -177,8 +231,17 @@ def _check(pid: str, tier: str, seed: int, args: Any) -> int:
         while pending:
             batch = [t for t in dict.fromkeys(pending) if t not in results]
             pending = []
-            for out in pool.imap_unordered(_verify_worker, batch):
-                results[out["target"]] = out
+            jobs: list = []
+            split_targets = [t for t in batch if int(_con_of(reg, t).opts.get("split", 0) or 0) > 0]
+            for t, prefixes in zip(split_targets, pool.map(_prefix_worker, split_targets)):
+                jobs.extend([(t, pf) for pf in prefixes] if prefixes else [(t, None)])
+            jobs.extend((t, None) for t in batch if t not in split_targets)
+            parts: dict = {}
+            for out in pool.imap_unordered(_verify_worker, jobs):
+                parts.setdefault(out["target"], []).append(out)
+            for t, pl in parts.items():
+                results[t] = _merge_parts(sorted(pl, key=lambda x: x["root"] or []))
+            for out in list(results[t] for t in parts):
                 for u in out["used_contracts"]:
                     c = reg.contracts.get(u)
                     if c is not None and not c.assumed and u not in results and not args.only:
@@ -218,6 +281,7 @@ def _decide(pid: str, tier: str, seed: int, reg: Any, own: list, results: dict, 
     kf = json.load(open(kf_path)) if os.path.exists(kf_path) else {"findings": [], "fixed": []}
     known = [k for k in kf.get("findings", []) if k.get("property") == pid]
 
+    known_hit: list = []
     violations: list = []   # dicts: unit, obligation, inputs, detail, replay, kind
     undecided: list = []
     checker_errors: list = []
@@ -258,6 +322,18 @@ def _decide(pid: str, tier: str, seed: int, reg: Any, own: list, results: dict, 
             if o["status"] == "unsat":
                 n_dis += 1
                 continue
+            if o["name"].startswith("known:"):
+                kid = o["name"].split(":")[1]
+                n_obl -= 1  # obligations inside a recorded known-finding class are reported, not counted
+                hit = [k for k in known if k.get("id") == kid]
+                if o["status"] == "sat":
+                    if hit:
+                        if not any(h is hit[0] for h, _ in known_hit):
+                            known_hit.append((hit[0], {"unit": t, "obligation": o["name"]}))
+                    else:
+                        violations.append({"unit": t, "obligation": o["name"], "cex": o["cex"], "kind": "deductive-no-input",
+                                           "confirmed": None})
+                continue
             if o["status"] == "unknown":
                 undecided.append({"unit": t, "obligation": o["name"], "reason": o["reason"] or "unknown"})
                 continue
@@ -268,7 +344,9 @@ def _decide(pid: str, tier: str, seed: int, reg: Any, own: list, results: dict, 
             if "inputs" in cex and t in reg.contracts:
                 try:
                     kwargs = {k: rebuild(x) for k, x in cex["inputs"].items()}
-                    rep = RuntimeContract(reg, reg.contracts[t]).check_call(kwargs, timeout_s=10.0)
+                    rc = RuntimeContract(reg, reg.contracts[t])
+                    rc._from_model = True
+                    rep = rc.check_call(kwargs, timeout_s=10.0)
                     v["replay_report"] = rep
                     if not rep.get("applicable", True):
                         confirmed = None
@@ -344,7 +422,7 @@ def _decide(pid: str, tier: str, seed: int, reg: Any, own: list, results: dict, 
     violations = list(uniq.values())
 
     # known findings
-    reported, known_hit = [], []
+    reported = []
     for v in violations:
         hit = None
         for k in known:
@@ -465,7 +543,9 @@ def _replay_file(path: str) -> int:
         print("not natively replayable (no inputs); the obligation and solver verdict are in the file")
         return 0
     kwargs = {k: rebuild(x) for k, x in d["inputs"].items()}
-    rep = RuntimeContract(reg, con).check_call(kwargs, timeout_s=10.0)
+    rc = RuntimeContract(reg, con)
+    rc._from_model = d.get("kind", "").startswith("deductive")
+    rep = rc.check_call(kwargs, timeout_s=10.0)
     print(json.dumps(rep, indent=1, default=str))
     return 1 if rep["violations"] else 0
 
